@@ -9,6 +9,7 @@ import Dhcp.Driver.Client
 import Dhcp.Driver.Server
 import Dhcp.Driver.Misc
 import Dhcp.Driver.Lease
+import Dhcp.Driver.C03x
 /-
   Line protocol driver: one operation per input line, one canonical line out.
   `lake build dhcp-driver` compiles it; the Go harness pipes the same lines
@@ -19,7 +20,7 @@ import Dhcp.Driver.Lease
 open Dhcp.Driver Dhcp.Driver.Cli Dhcp.Driver.Lse
 
 def families : List (String → List String → Option String) :=
-  [stepV4, stepLabel, stepRaw, stepV4Acc, stepV4Build, stepV6, stepV6Build, stepClient, stepServer, stepMisc, stepLease]
+  [stepV4, stepLabel, stepRaw, stepV4Acc, stepV4Build, stepV6, stepV6Build, stepClient, stepServer, stepMisc, stepLease, stepC03x]
 
 def step (line : String) : String :=
   match (line.trimAscii.toString.splitOn " ").filter (· ≠ "") with
